@@ -109,6 +109,7 @@ PIPE_PROFILE = {
     'cli_extra': {'interaction_order': lambda rng, wl: 2 if len(wl['header']) <= 6 and rng.random() < 0.4 else None},
     'card_names': ['False', 'True'],
     'tail_prob': 0.08,
+    'more_runs': 0.2,
 }
 
 RULE = ('hist: history = seeded list of Batch(list, cap[, permuted order]) operations on the real prior_combinations_sample and its process-global counter in a forked process; '
